@@ -51,6 +51,15 @@ CLAIMS.update({
          "explicit `timezone` argument.", "§4 C36"),
 })
 
+CLAIMS.update({
+ "C10": ("P-VAR arm analysis of the comparison methods (variant-pair states, operand provenance), opcode->callee dispatch table, integer-exactness dataflow",
+         "R10a: each of try_gt/ge/lt/le compares with its own operator on (self, rhs) and the four siblings accept the same variant pairs; "
+         "R10b: Op::resolve's opcode->method table and the `!=` negation; R10c: two integers are compared as i64, never through f64.", "§4 C10"),
+ "C11": ("P-VAR arm analysis of try_add/sub/mul/div/rem: operator kind, operand order/casts per variant pair, must-pass zero tests, NaN funnel",
+         "R11a-e: wrapping_* on the integer arm and no checked i64 arithmetic; f64 BinOps of the method's own kind with IntToFloat on the integer side; "
+         "all float results go through float_result; Div/Rem only after the divisor's zero tests; repeat count guarded.", "§4 C11"),
+})
+
 NA = {}
 
 def main():
